@@ -73,6 +73,24 @@ class State:
                     s.push_event(t, h)
                     s.trash_event(h)
             self.high = family[1]
+        elif kind == "prefill_counter":
+            # K entries of all handlers with mixed times (some will be live, see below), then counters just below 2^32:
+            # the OverflowError -> delete_events branch then works on a heap with entries in several subtrees
+            import itertools
+            pattern = [(1.0, 0.5), (0.0, 0.25), (2.0, 0.0), (0.0, 0.5), (1.0, 0.25)]
+            for j in range(family[1]):
+                h = self.hs[j % nh]
+                q, r = pattern[j % len(pattern)]
+                t = Time(q + 3.0 * (j // 7), r)
+                for s_ in (self.heap, self.lst):
+                    s_.push_event(t, h)
+                    s_.trash_event(h)
+            self.high = family[1]
+            for h in self.hs:
+                try:
+                    self.heap._minimal_valid_counter[h] = family[2]
+                except AttributeError as e:
+                    raise HarnessError("cannot preset deletion counters: %r" % (e,))
         elif kind == "counter":
             for h in self.hs:
                 try:
@@ -437,6 +455,8 @@ def plan(ctx):
     t = ctx.thorough
     pl = [(("empty", "small"), 3, 8 if t else 6), (("empty", "large"), 3, 7 if t else 5),
           (("counter", 2 ** 32 - 2, "small"), 3, 7 if t else 6), (("counter", 2 ** 32 - 3, "small"), 2, 9 if t else 7)]
+    for k in ((7, 10, 15, 23) if t else (10, 15)):
+        pl.append((("prefill_counter", k, 2 ** 32 - 2, "small"), 3, 6 if t else 5))
     for k in ((61, 62, 63, 64, 66, 70, 127) if t else (62, 63, 70)):
         pl.append((("prefill", k, "small"), 3, 5 if t else 4))
     if t:
